@@ -123,6 +123,12 @@ def run(tier):
     heretags = [pre + "<<" + dash + tag + tail for pre in ("a", "cat ", "$(cat ", "{ cat ") for dash in ("", "-") for tag in HERE_TAGS for tail in HERE_TAILS]
     extras = ["x='\\D{%s}'; echo \"${x@P}\"; echo after" % sp for sp in PROMPT_DATE] + ["x='%s'; echo \"${x@P}\"; echo after" % e for e in PROMPT_ESC] + ALIASES
     extras += [m + "\n" + b + "\necho after $?\n" for m in MODES for b in BODIES]
+    # variables whose contents are arithmetic expressions referring to themselves or to each other: a diagnostic, never unbounded recursion
+    cyc = ['a="a+1"', 'a="-a"', 'a="a?1:2"', 'a="b*2"; b="a-1"', 'a=a', 'a="(a)"', 'a="a,1"', 'a="a||1"', 'a="b"; b="c+0"; c="a"', 'v[0]="v[0]+1"; a="v[0]"', 'a="a++"', 'a="x=a"', 'a="!a"', 'a="a[0]"', 'a="$((1))+a"']
+    uses = ['echo $((a))', '(( a )); echo $?', 'let a; echo $?', 'echo ${s:a}', 'x=(1 2); echo ${x[a]}', 'declare -i i; i=a; echo $i', '[[ a -eq 1 ]]; echo $?', 'echo $((a+a)) $((a))', 'for ((i=a; i<1; i++)); do :; done; echo $?']
+    extras += ["s=abc; %s\n%s\necho after\n" % (c, u) for c in cyc for u in uses]
+    chain = "; ".join("a%d=a%d+1" % (i, i + 1) for i in range(64)) + "; a64=1"
+    extras += [chain + "\necho $((a0))\n", chain + "\n(( a0 > 60 )) && echo deep\n"]
     for s in boundary + nests + heretags + extras:
         corpus.add(s)
     corpus.discard("")
